@@ -61,13 +61,9 @@ func PowReal(d Number, p float64) Number {
 	const tol = 1e-15
 
 	r := d.Real
-	if math.Abs(r) < tol {
-		if r >= 0 {
-			r = tol
-		}
-		if r < 0 {
-			r = -tol
-		}
+	if r == 0 {
+		// Keep the derivative finite at the origin.
+		r = tol
 	}
 	deriv := p * math.Pow(r, p-1)
 	return Number{
